@@ -72,6 +72,13 @@ def history(ctx, rng, s, op):
     if rnd:
         prog.append('%d R1=RND:R2=RND' % ln); ln += 10
     target = ['10 END']
+    # variant "inside a subroutine": the operation runs two GOSUB levels deep and the code that runs after it does RETURN, which
+    # must find no subroutine stack (round-4 seeded change C23d kept the stack across CHAIN MERGE)
+    insub = op in ('RUN', 'CHAIN', 'CHAINALL', 'CHAINMERGE') and rng.random() < 0.35
+    if insub:
+        prog.insert(0, '1 GOSUB 2:PRINT "BACK1":END')
+        prog.insert(1, '2 GOSUB 3:PRINT "BACK2":RETURN')
+        prog.insert(2, '3 REM')
     if op == 'CLEAR':
         prog.append('%d CLEAR' % ln); ln += 10
         prog.append('%d END' % ln)
@@ -79,10 +86,10 @@ def history(ctx, rng, s, op):
         prog.append('%d NEW' % ln)
     elif op == 'RUN':
         prog.append('%d IF RERUN9%%=0 THEN RUN 9000' % ln); ln += 10
-        prog.append('9000 END')
+        prog.append('9000 RETURN' if insub else '9000 END')
     else:
         with open(os.path.join(s.mount, 'T.BAS'), 'w') as f:
-            f.write('9500 END\r\n')
+            f.write('9500 RETURN\r\n' if insub else '9500 END\r\n')
         stmt = {'CHAIN': 'CHAIN "T"', 'CHAINALL': 'CHAIN "T",,ALL', 'CHAINMERGE': 'CHAIN MERGE "T",9500'}[op]
         prog.append('%d %s' % (ln, stmt))
     s.ex('NEW')
@@ -93,7 +100,13 @@ def history(ctx, rng, s, op):
     r = s.ex('RUN')
     if r[0] == 'internal':
         return None, ('internal', r, prog)
-    if r[0] == 'err':
+    stackgone = None
+    if insub:
+        out = r[2] if len(r) > 2 and isinstance(r[2], bytes) else b''
+        stackgone = r[0] == 'err' and r[1] == 3 and b'BACK' not in out
+        if not stackgone and not (r[0] == 'ok' and b'BACK' in out):
+            return None, ('err', r, prog)           # something else happened: not a case of this variant
+    elif r[0] == 'err':
         return None, ('err', r, prog)
     # probes
     got = []
@@ -146,8 +159,8 @@ def history(ctx, rng, s, op):
     gflag = (q[0] == 'err' and q[1] == 9)
     ev = {'op': op, 'commons': commons,
           'set': {'vars': [{'name': v['name'] + ('()' if v['kind'] in ('arr', 'sarr') else ''), 'kind': v['kind'], 'val': v['val']} for v in vars_],
-                  'fn': fn, 'defint': defint, 'base1': base1, 'rnd': rnd},
-          'got': {'vars': got, 'fn': gfn, 'defint': gdefint, 'base1': gbase1, 'rnd': grnd, 'dimok': dimok, 'baseflag': gflag}}
+                  'fn': fn, 'defint': defint, 'base1': base1, 'rnd': rnd, 'insub': insub},
+          'got': {'vars': got, 'fn': gfn, 'defint': gdefint, 'base1': gbase1, 'rnd': grnd, 'dimok': dimok, 'baseflag': gflag, 'stackgone': bool(stackgone)}}
     return ev, prog
 
 
